@@ -441,7 +441,7 @@ let contains_sub (s : string) (sub : string) : bool =
 let run_serve fields = match fields with
   | [mname; tree; paths; _fsb] ->
     let ps = List.map string_of_hexstr (split ',' paths) in
-    if List.exists (fun p -> List.exists (contains_sub p) ["out-dir"; "out-file"; "out-up"; "in-dir"; "in-file"; "abs-out"]) ps then "SKIP" else
+    if List.exists (fun p -> List.exists (contains_sub p) ["out-dir"; "out-file"; "out-up"; "in-dir"; "in-file"; "abs-out"; "out-chain"]) ps then "SKIP" else
     let names = daemon_serve (bytes_of_hex mname) (parse_ftree tree) (List.map zl_of_string ps) in
     let hs = List.sort compare (List.map hex_of_bytes_plain names) in
     String.concat ";" hs
